@@ -8,7 +8,8 @@
  * return trampolines by calling the exit hooks, and emulates setjmp/longjmp (saved pc) and the
  * bodies of the exception wrappers of libmcount/wrap.c (which cannot be called without a real
  * exception in flight):
- *      __cxa_throw/_rethrow/_Unwind_Resume:  in_exception = true; mcount_rstack_restore()
+ *      __cxa_throw/_rethrow:  in_exception = true; mcount_rstack_restore()
+ *      _Unwind_Resume:        if (in_exception) mcount_rstack_rehook_exception(own return slot); then as above
  *      __cxa_begin_catch:                    mcount_rstack_rehook_exception(); in_exception = false
  *
  * Slot number i is &stk[2*i+1]; the word below it (&stk[2*i]) is the "saved frame pointer" read as
@@ -338,9 +339,12 @@ static void run_script(char **lines, int nlines)
 			struct mcount_thread_data *mtdp;
 			if (op[0] == 'R')
 				*SLOT(a) = enc(b);
-			/* body of the __cxa_throw / __cxa_rethrow / _Unwind_Resume wrappers (wrap.c) */
+			/* body of the __cxa_throw / __cxa_rethrow wrappers (wrap.c); _Unwind_Resume first
+			 * drops the entries at or below its own return-address slot (frame_ptr + 1) */
 			mtdp = get_thread_data();
 			if (!check_thread_data(mtdp)) {
+				if (op[0] == 'R' && mtdp->in_exception)
+					mcount_rstack_rehook_exception(mtdp, (unsigned long)SLOT(a));
 				mtdp->in_exception = true;
 				mcount_rstack_restore(mtdp);
 			}
